@@ -643,5 +643,7 @@ func factsC18(r *Repo) []Fact {
 	}
 	// ---------- who owns the memory of the message history (c18_mem.go) ----------
 	out = append(out, c18MemFacts(rp)...)
+	// ---------- calls to tools that do not exist (c18_tools.go) ----------
+	out = append(out, c18ToolsFacts(rp, cp)...)
 	return out
 }
